@@ -19,6 +19,8 @@ func main() {
 		c37Main()
 	case "c34":
 		c34Main()
+	case "c38":
+		c38Main()
 	default:
 		fmt.Fprintln(os.Stderr, "unknown subcommand")
 		os.Exit(2)
